@@ -1,6 +1,182 @@
-//! C06 — stub (to be written; see /verif/harness/AUTHORING.md and DESIGN.md §3 C06)
-use vengine::Property;
+//! C06 — kernel matrices hold the kernel function; hierarchical clustering partitions.
+//!
+//! * `kernel`: a record matrix, a kernel method, a neighbour count; the dense kernel and the sparse
+//!   kernel under all three neighbour indices are built through the public `transform` overloads and
+//!   compared with an independently coded kernel function, a k-NN validity predicate (ties free) and
+//!   their own densified matrix (size / sum / column / diagonal / upper triangle / dot; owned and view).
+//! * `threshold`, `num_clusters`, `num_clusters_all`: agglomerative clustering of a kernel; the
+//!   similarity matrix is read off the kernel object, transformed by -ln(max(s,1e-6)) and clustered by
+//!   naive reference code (connected components for single linkage, O(n^3) Lance–Williams otherwise).
+//!   Cluster ids are arbitrary: only partitions are compared.
+
+pub mod gen;
+pub mod hier;
+pub mod kernel;
+pub mod oracle;
+
+use gen::{data_class, gaussian_method, wide_gaussian_method, kernel_method, link, records, theta, DataClass};
+use hier::{check_hier, Crit, HCase};
+use kernel::{check_kernel, KCase};
+use oracle::{Link, KM};
+use proptest::prelude::*;
+use vengine::gen::SplitMix;
+use vengine::{enum_sub, prop_sub, Property, Tier};
+
+fn kernel_strategy(max_n: usize) -> impl Strategy<Value = KCase> {
+    (records(2, max_n, data_class()), kernel_method(), any::<u16>(), 1u8..=3, any::<u64>(), 0u8..6).prop_map(
+        |((class, x), method, k, rhs_cols, rhs_seed, path)| KCase { class, x, method, k, rhs_cols, rhs_seed, path },
+    )
+}
+
+/// data classes for clustering: generic data dominates for the arithmetic linkages (ties make their
+/// dendrogram ambiguous), tie-rich data for single linkage
+fn hier_records(max_n: usize) -> impl Strategy<Value = (DataClass, gen::Mat)> {
+    let class = prop_oneof![
+        1 => Just(DataClass::Lattice),
+        1 => Just(DataClass::Duplicates),
+        3 => Just(DataClass::Clustered),
+        3 => Just(DataClass::Gaussian),
+    ];
+    records(2, max_n, class)
+}
+
+fn hier_kernel(l: Link) -> BoxedStrategy<KM> {
+    // Ward squares the dissimilarities: only similarities <= 1 (Gaussian kernel) give it a meaning
+    match l {
+        Link::Ward => prop_oneof![3 => wide_gaussian_method(), 1 => gaussian_method()].boxed(),
+        Link::Single => prop_oneof![4 => gaussian_method(), 2 => kernel_method()].boxed(),
+        _ => prop_oneof![3 => wide_gaussian_method(), 1 => gaussian_method(), 2 => kernel_method()].boxed(),
+    }
+}
+
+fn hier_strategy(max_n: usize, crit: impl Strategy<Value = Crit> + 'static) -> impl Strategy<Value = HCase> {
+    let lk = link().prop_flat_map(|l| hier_kernel(l).prop_map(move |m| (l, m)));
+    (
+        hier_records(max_n),
+        lk,
+        proptest::option::weighted(0.2, any::<u16>()),
+        crit,
+        any::<bool>(),
+    )
+        .prop_map(|((class, x), (link, method), sparse_k, crit, via_dataset)| HCase { class, x, method, sparse_k, link, crit, via_dataset })
+}
+
+fn all_num_clusters(max_n: usize) -> Vec<HCase> {
+    let mut v = vec![];
+    for n in 2..=max_n {
+        let mut g = SplitMix(0xc06 + n as u64);
+        let x: gen::Mat = (0..n).map(|_| (0..2).map(|_| (g.gauss() * 1024.0).round() / 1024.0).collect()).collect();
+        for link in [Link::Single, Link::Complete, Link::Average, Link::Weighted, Link::Ward] {
+            for req in 1..=n + 2 {
+                // inverse of `1 + idx(q, n + 2)`: smallest q that maps to req - 1
+                let target = req - 1;
+                let q = (((target as u64) << 16) + (n as u64 + 1)) / (n as u64 + 2);
+                v.push(HCase {
+                    class: DataClass::Gaussian,
+                    x: x.clone(),
+                    method: KM::Gaussian(1.0),
+                    sparse_k: None,
+                    link,
+                    crit: Crit::Num(q.min(65535) as u16),
+                    via_dataset: (n + req) % 2 == 0,
+                });
+            }
+        }
+    }
+    v
+}
+
+/// zero and one record: dense kernels only (a sparse kernel needs 0 < k < n)
+fn tiny_kernels() -> Vec<KCase> {
+    let mut v = vec![];
+    for n in [0usize, 1] {
+        for method in [KM::Linear, KM::Gaussian(1.0), KM::Gaussian(0.01), KM::Polynomial(1.0, 2), KM::Polynomial(0.0, 3)] {
+            for path in 0..6u8 {
+                let x: gen::Mat = (0..n).map(|_| vec![1.5, -2.0]).collect();
+                v.push(KCase { class: DataClass::Gaussian, x, method: method.clone(), k: 0, rhs_cols: 1 + path % 3, rhs_seed: 7 + path as u64, path });
+            }
+        }
+    }
+    v
+}
+
+fn tiny_clusterings() -> Vec<HCase> {
+    use gen::Theta;
+    let mut v = vec![];
+    for n in [0usize, 1] {
+        for link in [Link::Single, Link::Complete, Link::Average, Link::Weighted, Link::Ward] {
+            for method in [KM::Gaussian(1.0), KM::Linear] {
+                if link == Link::Ward && method == KM::Linear {
+                    continue;
+                }
+                let crits = [
+                    Crit::Num(0),
+                    Crit::Num(30000),
+                    Crit::Num(65535),
+                    Crit::Dist(Theta::Raw(0.0)),
+                    Crit::Dist(Theta::Raw(1.0)),
+                    Crit::Dist(Theta::EqualFirstMerge),
+                    Crit::Dist(Theta::BetweenPairwise { rank: 0, frac: 0 }),
+                ];
+                for (i, crit) in crits.into_iter().enumerate() {
+                    let x: gen::Mat = (0..n).map(|_| vec![0.5, 2.0, -1.0]).collect();
+                    v.push(HCase { class: DataClass::Gaussian, x, method: method.clone(), sparse_k: None, link, crit, via_dataset: i % 2 == 0 });
+                }
+            }
+        }
+    }
+    v
+}
 
 pub fn property() -> Property {
-    Property { id: "C06", rule: "", assumptions: vec![], subs: vec![] }
+    Property {
+        id: "C06",
+        rule: "kernel cases = (record matrix n x p from {lattice, duplicates, clustered, gaussian}, kernel method, neighbour count k in 1..n, \
+               dot right-hand side, construction path); every case builds the dense kernel and the sparse kernel under LinearSearch, KdTree and BallTree. \
+               clustering cases = (records, kernel method, dense|sparse kernel, linkage in {single, complete, average, weighted, ward}, \
+               NumClusters(1..=n+2) | Distance(theta derived from the case: between / equal to pairwise dissimilarities or reference merge heights)). \
+               Non-trivial = sparse kernel whose k-nearest-neighbour relation is asymmetric (some i has j among its k nearest but not vice versa), \
+               or a threshold run whose expected partition has strictly between 1 and n clusters, \
+               or a NumClusters request with 1 < requested < n or requested > n; distinct = distinct canonical JSON of the case",
+        assumptions: vec![
+            "f64 only; record rows are contiguous (KdTree documents a panic otherwise); 0 < k < n (documented panic otherwise), so sparse kernels need n >= 2; n = 0 and n = 1 are covered by two small enumerations (dense kernels)".into(),
+            "Gaussian kernel function = exp(-|x-y|^2 / eps) (pinned by linfa's own gaussian_test), polynomial degree in {1,2,3}".into(),
+            "kernel entries vs the independent formula: |a-b| <= 64 eps * scale (+1e-300), scale = sum |x_i y_i| (+|c|) for linear/polynomial (propagated through the power), (1+t) exp(-t) with t = |x-y|^2/eps for Gaussian".into(),
+            "symmetry of the dense matrix, equality of sparse stored values with the dense ones, column/diagonal/upper-triangle vs the densified matrix: bit equality (same arithmetic / plain copies)".into(),
+            "sum and dot vs the densified matrix: (64 + 2n) eps * sum of absolute terms".into(),
+            "Gaussian kernel PSD: smallest Jacobi eigenvalue (trusted: vengine::num::jacobi_eigh) >= -1e-12 n, plus 4 random quadratic forms".into(),
+            "sparse pattern: pairs with squared distance < d_k (1 - 1e-9) of either end point must be stored, pairs with squared distance > d_k (1 + 1e-9) of both must not; inside the band (ties) membership is free; patterns of the three indices must coincide when no pair lies in the band".into(),
+            "clustering oracle takes the similarity matrix from the kernel object (its entries are judged by the kernel sub-check) and applies -ln(max(s, 1e-6)) itself".into(),
+            "thresholds are finite and >= 0 (anything else is a documented parameter error)".into(),
+            "non-single linkages are judged against the reference agglomeration only when no two candidate merges are within 1e-9 (1+|h|) of each other and theta is farther than that from every merge height obtained by arithmetic; other cases are counted as not judged".into(),
+            "Ward is only run on kernels with similarities <= 1 (Gaussian): kodama squares the dissimilarities, which has no threshold semantics for negative ones; relies on sqrt(fl(d^2)) == d for the first merge height".into(),
+            "Centroid and Median linkage are excluded (non-monotone, threshold semantics undefined)".into(),
+            "cluster ids are not compared, only the partition and the number of distinct ids".into(),
+        ],
+        subs: vec![
+            prop_sub("kernel", 80000, 250000, |t: Tier| kernel_strategy(t.pick(24, 60)), check_kernel)
+                .chunks(16)
+            .require(&["knn_relation_asymmetric", "knn_tie_at_rank_k"]),
+            prop_sub(
+                "threshold",
+                160000,
+                500000,
+                |t: Tier| hier_strategy(t.pick(24, 60), theta().prop_map(Crit::Dist)),
+                check_hier,
+            )
+            .chunks(16)
+            .require(&["theta_equals_a_pairwise_dissimilarity", "expect_strictly_between"]),
+            prop_sub(
+                "num_clusters",
+                40000,
+                120000,
+                |t: Tier| hier_strategy(t.pick(24, 60), any::<u16>().prop_map(Crit::Num)),
+                check_hier,
+            )
+            .require(&["requested_more_than_n"]),
+            enum_sub("num_clusters_all", |t: Tier| all_num_clusters(t.pick(10, 24)), check_hier),
+            enum_sub("tiny_kernels", |_t: Tier| tiny_kernels(), check_kernel).chunks(1),
+            enum_sub("tiny_clusterings", |_t: Tier| tiny_clusterings(), check_hier).chunks(1),
+        ],
+    }
 }
